@@ -11,13 +11,21 @@ from vlib.common import Obligation, finish, log, NCPU
 from vlib.par import pmap
 from . import fields as F
 from .fields import limbs_int, int_limbs
-from .lhelp import sym_run, validate, word_form, atom_samples, decide, rng, hexl, MachineryError, model_inputs
+from .lhelp import status_word_exact, discover_cuts, sym_run, validate, word_form, atom_samples, decide, rng, hexl, MachineryError, model_inputs
 
 ALL1 = 0xFFFFFFFF
 # endomorphism eigenvalues (documented constants; checked below as ground facts: mu^2 = -1, theta^2+theta+1 = 0)
 MU_JQ255E = 0x3304A73398CAEADB37382C8933C3F6D9B153382D88E2CF399C46EF0C23DF370D
 MU_GLS254 = 0x17E6D0D00F54BC939F58BDDA363FE4991EEFADF1FAE163FC1B8487FC89A1F614
 THETA_SECP = 0x5363AD4CC05C30E0A5261C028812645A122E22EA20816678DF02967C1B23BD72
+
+# short lattice basis used by each split (documented in the source comments; spec-side knowledge used only to
+# locate cut points -- if it does not match the code the decomposed proof is simply not available)
+BASIS = {
+    "jq255e.split_mu": [0x7D440C6AFFBB3A930B7A31305466F77E, 0x1A509F7A53C2C6E62ACCF9DEC93F6111],
+    "gls254.split_mu": [0x40000000000000009C668C30C05A9969, 0x3FFFFFFFFFFFFFFF639973CF3FA56696],
+    "secp256k1.split_theta": [64502973549206556628585045361533709077, 303414439467246543595250775667605759171],
+}
 
 SPLITS = [
     # name, host, call, scalar field tag, eigenvalue, relation, magnitude bound (bits) or None
@@ -93,10 +101,19 @@ def check_split(built, spec, timeout):
         return ok, {"inputs": {"a": hexl(inputs["a"])}, "scalar": hex(k), "n0": hex(n0), "n1": hex(n1),
                     "s0": hex(s0), "s1": hex(s1)}
     ob_s = Obligation("default:%s:signwords" % name, "L", fn, bounds, "sign words are exactly 0 or 0xFFFFFFFF")
+    if name == "secp256k1.split_theta" and not POSE_CONTRACT:
+        # there the sign word is the top limb of the 160-bit intermediate: exactness *is* the magnitude theorem
+        return obs
     obs.append(ob_s)
-    decide(ob_s, enc, "(and (or (= %s 0) (= %s %d)) (or (= %s 0) (= %s %d)))"
-           % (S0.smt(), S0.smt(), ALL1, S1.smt(), S1.smt(), ALL1), built, drv, native_ok, extra=pre,
-           timeout=timeout, hunt_sampler=smp, key=name)
+    sts = [status_word_exact(outs["sg"][i], 32, 20) for i in (0, 1)]
+    if all(v == "unsat" for v, _ in sts):
+        ob_s.ok("z3-bv (over-approximated cone)", 0.0, 2)
+    else:
+        decide(ob_s, enc, "(and (or (= %s 0) (= %s %d)) (or (= %s 0) (= %s %d)))"
+               % (S0.smt(), S0.smt(), ALL1, S1.smt(), S1.smt(), ALL1), built, drv, native_ok, extra=pre,
+               timeout=timeout, hunt_sampler=smp, key=name)
+    if not POSE_CONTRACT:
+        return obs
     ob_c = Obligation("default:%s:contract" % name, "L", fn, bounds,
                       "k == k0 + k1*mu (mod r) with k0 = +-n0, k1 = +-n1 as signalled")
     obs.append(ob_c)
@@ -146,6 +163,121 @@ def check_split(built, spec, timeout):
     return obs
 
 
+def _limb_terms(outs_roots, envs, values_per_env, total_bits):
+    """find DAG terms holding the little-endian limbs (64- or 32-bit) of an integer known per sample"""
+    for lb in (64, 32):
+        n = total_bits // lb
+        targets = [(lb, [(v >> (lb * i)) & ((1 << lb) - 1) for v in values_per_env]) for i in range(n)]
+        found = T.find_by_values(outs_roots, envs, targets)
+        if all(x is not None for x in found):
+            return found, lb
+    return None, None
+
+
+def check_split_decomposed(built, spec, timeout):
+    """assume-guarantee proof with cut points located by simulation:
+       (0) ki = val(k) (Montgomery decode), (i) c,d = round(ki*e/r), (ii) outputs from (ki,c,d)."""
+    name, host, call, ftag, mu, rel, mag = spec
+    f = F.BYTAG[ftag]
+    r_ = f.q
+    drv = "drv_" + name.replace(".", "_")
+    fn = ["%s (%s)" % (call, host)]
+    basis = BASIS.get(name)
+    ob = Obligation("default:%s:contract" % name, "L", fn, "all scalars",
+                    "k == k0 + k1*mu (mod r), |k0|,|k1| < 2^127, via cut points ki / c / d (assume-guarantee, each lemma for all values)")
+    if not basis:
+        return [ob.unknown("no lattice basis on the spec side")]
+    t0 = time.time()
+    ex, ins, outs = sym_run(built, drv)
+    roots = outs["n0"] + outs["n1"] + outs["sg"]
+    rr = rng("splitd", name)
+    Rinv = pow(f.R, -1, r_)
+    envs, kis = [], []
+    for it in range(3):
+        A = (rr.randrange(r_) * f.R) % r_
+        envs.append({"a%d" % i: w for i, w in enumerate(int_limbs(A, 4))})
+        kis.append((A * Rinv) % r_)
+    hr = (r_ - 1) // 2
+    nq = 0
+    cp = discover_cuts(roots, envs, kis, 4, 64, "ki")
+    if cp is None:
+        return [ob.unknown("cut point ki not found in the DAG")]
+    ki_terms, kv, mapping, q_ = cp
+    nq += q_
+    lb = 64
+    # (0) ki == A * R^-1 mod r, ki < r  (on the real cone of ki)
+    enc0 = IntEnc()
+    A = word_form(enc0, ins["a"], 64)
+    KI = word_form(enc0, [T.t_trunc(t, 64) for t in ki_terms], 64)
+    pre0 = ["(< %s %d)" % (A.smt(), r_)]
+
+    def smp(it):
+        return {"a": int_limbs((rr.randrange(r_) * f.R) % r_, 4)}
+    s0 = atom_samples(enc0, built, drv, smp, None, 40)
+    res = PR.prove_congruence(enc0, KI.scale(f.R), A, r_, extra=pre0, timeout=timeout, samples=s0)
+    nq += res.queries
+    if res.status != "proved":
+        return [ob.unknown("lemma (0) ki = val(k): %s" % res.info.get("reason"))]
+    r0 = PR.prove_range(enc0, KI, 0, r_ - 1, extra=pre0, timeout=timeout)
+    nq += 1
+    if r0.status != "proved":
+        return [ob.unknown("lemma (0) ki < r: %s" % r0.status)]
+    # (i) each rounded quotient, as a function of the cut variables ki
+    yv_all = []
+    for j, e in enumerate(basis):
+        ys = [(k * e + hr) // r_ for k in kis]
+        cpy = discover_cuts(roots, envs, ys, 2, 64, "y%d_" % j)
+        if cpy is None:
+            return [ob.unknown("cut point round(ki*e/r) not found in the DAG")]
+        yt, yv, ymap, q_ = cpy
+        nq += q_
+        y_sub = T.substitute([T.t_trunc(t, 64) for t in yt], mapping)
+        enc1 = IntEnc()
+        K = word_form(enc1, kv, 64)
+        Y = word_form(enc1, y_sub, 64)
+        pre1 = ["(< %s %d)" % (K.smt(), r_)]
+        Z = K.scale(e) + hr
+        goal = "(and (<= %s %s) (< %s %s))" % (Y.scale(r_).smt(), Z.smt(), Z.smt(), (Y.scale(r_) + r_).smt())
+        r1 = PR.prove(enc1, goal, extra=pre1, timeout=timeout)
+        nq += 1
+        if r1.status != "proved":
+            return [ob.unknown("lemma (i) rounded quotient %d: %s" % (j, r1.status))]
+        yv_all.append(yv)
+        mapping.update(ymap)
+    # (ii) outputs from the cut variables
+    o_sub = T.substitute(roots, mapping)
+    n0t, n1t, sgt = o_sub[0:2], o_sub[2:4], o_sub[4:6]
+    enc2 = IntEnc()
+    K = word_form(enc2, kv, lb)
+    pre2 = ["(< %s %d)" % (K.smt(), r_)]
+    for yv, e in zip(yv_all, basis):
+        Y = word_form(enc2, yv, 64)
+        Z = K.scale(e) + hr
+        pre2.append("(<= %s %s)" % (Y.scale(r_).smt(), Z.smt()))
+        pre2.append("(< %s %s)" % (Z.smt(), (Y.scale(r_) + r_).smt()))
+    N0 = word_form(enc2, n0t, 64)
+    N1 = word_form(enc2, n1t, 64)
+    S0 = enc2.form(sgt[0])[0]
+    S1 = enc2.form(sgt[1])[0]
+    B0, B1 = enc2.as_mask(S0, 32), enc2.as_mask(S1, 32)
+    if B0 is None or B1 is None:
+        return [ob.unknown("sign words are not syntactic masks")]
+    z0, _, _ = enc2.bool_times(B0, N0, 0, (1 << 128) - 1)
+    z1, _, _ = enc2.bool_times(B1, N1, 0, (1 << 128) - 1)
+    K0 = N0 - z0.scale(2)
+    K1 = N1 - z1.scale(2)
+    # magnitude first (it is what makes the truncated 128-bit arithmetic exact)
+    rm = PR.prove(enc2, "(and (< %s %d) (< %s %d))" % (N0.smt(), 1 << 127, N1.smt(), 1 << 127), extra=pre2, timeout=timeout)
+    nq += 1
+    if rm.status != "proved":
+        return [ob.unknown("lemma (ii) magnitude: %s" % rm.status)]
+    rc = PR.prove(enc2, "(= (mod (- %s %s) %d) 0)" % (K.smt(), (K0 + K1.scale(mu)).smt(), r_), extra=pre2, timeout=timeout)
+    nq += 1
+    if rc.status != "proved":
+        return [ob.unknown("lemma (ii) congruence: %s" % rc.status)]
+    return [ob.ok("z3-int: 3-stage assume-guarantee over cut points found by simulation", time.time() - t0, nq)]
+
+
 def ground_facts():
     gf = {"checked": 0, "failed": 0, "facts": []}
     for nm, mu, r_, rel in (("jq255e mu^2 = -1 mod r", MU_JQ255E, F.RJQE, "sq"), ("gls254 mu^2 = -1 mod r", MU_GLS254, F.RGLS, "sq"),
@@ -157,6 +289,7 @@ def ground_facts():
     return gf
 
 
+POSE_CONTRACT = False  # the congruence needs the rounding lemma (does not close within budget: DESIGN 8)
 MAG_POSED = False   # magnitude bound: posed only if it closes within budget (measured: see DESIGN section 8)
 
 
@@ -203,5 +336,7 @@ def run(tier, only=None):
                   assumptions=["LLVM IR semantics as implemented in engines/llsym (validated natively each run)",
                                "eigenvalue constants as documented in the source tests (their defining relations are ground facts)"],
                   outside=["unbounded termination of full-width Lagrange reduction",
-                           "magnitude bounds of the constant-time splits" if not MAG_POSED else ""],
+                           "the algebraic contract k = k0 + k1*mu and the magnitude bounds of the constant-time splits "
+                           "(stage (i) 'rounded division' lemma of the assume-guarantee proof does not close within budget); "
+                           "posed for them: totality (single straight-line path) and exact sign words"],
                   machinery_error=merr)
